@@ -17,6 +17,7 @@ type c14Call struct {
 }
 
 type c14Case struct {
+	Huge    int             `json:"huge"`
 	Kind    string          `json:"kind"`
 	Bytes   []int           `json:"bytes"`
 	Donl    bool            `json:"donl"`
@@ -96,6 +97,8 @@ func runC14(raw json.RawMessage, w *Writer) {
 	}
 	w.Emit(Ev{"ev": "reset", "class": c.Class})
 	switch c.Kind {
+	case "huge":
+		w.Emit(hugeH265(c.Huge, c.Mtu))
 	case "decode":
 		d := h265Parse(bytesOf(c.Bytes), c.Donl)
 		u := h265ParseInto(h265Used(bytesOf(c.Bytes), c.Donl), bytesOf(c.Bytes))
